@@ -8,6 +8,15 @@ For each model family the two trait methods, packaged as a `Model` (`okEnc`/`okD
 `WellFormed`), form a `Model.WellFormed P` model: non-empty bins tiling `[0, 2^P)`, no bin of
 probability one, `quantile_function` the exact inverse of `left_cumulative_and_probability`;
 symbols outside the support have probability zero.  All `1 ≤ P ≤ B`, `P = B` included.
+
+**Distinct symbols.**  `C03_noncontiguous` and `C03_nclookup` take an *accepted hash-table
+encoder* for the same `(symbols, probabilities)` as hypothesis; that constructor accepts only
+pairwise distinct symbols (`C19_ncenc`), which is what `labelledModel_wellFormed` needs
+(`Nodup`).  For a non-contiguous decoder / lookup decoder on its own the proved statement is
+bin-level (`C19_ncdec`, `C19_nclookup`, `C05_noncontiguous`: valid cdf, quantile function =
+specification with the given labels); it is **not** claimed that its symbols form a support
+with one interval each, because the decoder constructors accept repeated symbols — the open
+known finding described in `C05_cat.lean`.
 -/
 namespace CV.Cat
 open CV
